@@ -84,7 +84,7 @@ def run_inst(spec, run):
         for nid, objs in nodes.items():
             o = objs[0]
             if not issubclass(o.__class__, ns.puan.variable) and getattr(o, "generated_id", False) and S.concrete(o.value) == 1 and S.concrete(o.sign) == 1 \
-                    and sorted(x.id for x in o.propositions) == sorted(comp) and all(issubclass(x.__class__, ns.puan.variable) for x in o.propositions):
+                    and sorted(x.id for x in o.propositions) == sorted(comp):
                 # the inner Any(complement) created by cc.Any; the same id may coincide with a user-written Any over the same leaves
                 d2.add(nid)
     keys = spec["prio_keys"]
